@@ -131,9 +131,13 @@ def split_const_bool_switches(rec):
     for T, ds in defs.items():
         if T == 0 or T >= len(locals_) or locals_[T] != "bool" or len(ds) < 2:
             continue
-        if not all(st is not None and st["lhs"] == [T] and st["rv"]["r"] == "use" and (st["rv"]["o"].get("k") or {}).get("v") in (0, 1) for _, _, st in ds):
+        if not all(st is not None and st["lhs"] == [T] for _, _, st in ds):
             continue
         for bi, si, st in ds:
+            # (`a && b && c` stores `false` in the arms that fail early and the value of `c` in the last one: the constant arms are
+            # split off, the switch that remains is reached only through the last conjunct)
+            if not (st["rv"]["r"] == "use" and (st["rv"]["o"].get("k") or {}).get("v") in (0, 1)):
+                continue
             b = blocks[bi]
             if any(x["lhs"][0] == T for x in b["stmts"][si + 1:]) or b["term"]["k"] != "goto":
                 continue
